@@ -22,6 +22,7 @@ TICK = 0.1          # seconds per model tick
 EPS = 0.03          # a timer never fires early; allowance for clock granularity
 TIGHT = 0.25        # allowed lateness on the simulated rigs
 RELEASE = 14        # ticks after which a blocked read of a rig gives up by itself ("socket timeout")
+THINK = 3           # ticks a "slow" device stays silent after a return before it answers
 NOISY = 0.08        # heartbeat gap above which a measurement is called noisy
 VERIF = Path(__file__).resolve().parents[2]
 CHANNEL_OPS = ("channel_authenticate_ssh", "channel_authenticate_telnet", "get_prompt", "send_input",
@@ -412,17 +413,19 @@ def _block_classes():
     from harness.simtransport import AsyncSimTransport, SimTransport
 
     class BlockSim(SimTransport):
-        close_wakes, release_at, obs = True, None, None
+        close_wakes, release_at, obs, think, think_until = True, None, None, 0, 0
 
         def write(self, channel_input):
             if self.obs is not None and not self.obs:
                 self.obs.append(_sig_ctx())
+            if self.think and channel_input.endswith(b"\n"):      # a slow device: silent for a while, then it answers
+                self.think_until = time.monotonic() + self.think
             return SimTransport.write(self, channel_input)
 
         @timeout_wrapper
         def read(self):
             self._pre_read()
-            while not self.buf:
+            while not self.buf or time.monotonic() < self.think_until:
                 if self.release_at is not None and time.monotonic() >= self.release_at:
                     raise OSError("blocked read gave up (the rig's socket timeout)")
                 time.sleep(0.005)      # not self._wake.wait(): see RigTransportBase
@@ -431,11 +434,13 @@ def _block_classes():
             return self._take()
 
     class ABlockSim(AsyncSimTransport):
-        close_wakes, release_at, obs = True, None, None
+        close_wakes, release_at, obs, think, think_until = True, None, None, 0, 0
 
         def write(self, channel_input):
             if self.obs is not None and not self.obs:
                 self.obs.append(_sig_ctx())
+            if self.think and channel_input.endswith(b"\n"):
+                self.think_until = time.monotonic() + self.think
             return AsyncSimTransport.write(self, channel_input)
 
         _reading = False
@@ -447,7 +452,7 @@ def _block_classes():
             self._reading = True
             try:
                 self._pre_read()
-                while not self.buf:
+                while not self.buf or time.monotonic() < self.think_until:
                     if self.release_at is not None and time.monotonic() >= self.release_at:
                         raise OSError("blocked read gave up (the rig's socket timeout)")
                     await asyncio.sleep(0.005)
@@ -483,7 +488,7 @@ def _stack_setup(c):
         return dev, [FaultPlan(after_bytes=p + e + 1 + 7, action="silent")]
     if stall == "before_prompt":
         return dev, [FaultPlan(after_bytes=total - len(probe.prompt()), action="silent")]
-    if stall == "never":          # the device answers: the operation completes
+    if stall in ("never", "slow"):          # the device answers (slow: after a silence): the operation completes
         return dev, []
     return dev, []                # "natural": the expected text never shows up (interact)
 
@@ -560,6 +565,8 @@ def run_stack_case(c):
     conn._base_channel_args.timeout_ops = t_ops
     conn._base_transport_args.timeout_transport = t_tr
     t.close_wakes, t.obs = c["close_wakes"], []
+    if c["stall"] == "slow":
+        t.think = THINK * TICK
     ch = conn.channel
     op = c["op"]
     res = {}
@@ -590,7 +597,7 @@ def run_stack_case(c):
             me = asyncio.current_task()
             res["tasks_left"] = sorted(getattr(x.get_coro(), "__qualname__", "?") for x in asyncio.all_tasks()
                                        if x not in before_t and x is not me and not x.done())
-            if t.isalive() and c["stall"] != "never":
+            if t.isalive() and c["stall"] not in ("never", "slow"):
                 try:
                     await asyncio.wait_for(type(t).read.__wrapped__(t), timeout=0.05)
                     res["followup"] = "returned"
@@ -950,6 +957,117 @@ def run_race_case(c):
     return res
 
 
+def _think_server(nopts, think):
+    """loopback telnet device: negotiates `nopts` options, is silent for `think`, prints the prompt; echoes what it is
+    sent and, on every return, is silent for `think` again before it prints the output and the prompt"""
+    ls = socket.socket()
+    ls.setsockopt(socket.SOL_SOCKET, socket.SO_REUSEADDR, 1)
+    ls.bind(("127.0.0.1", 0))
+    ls.listen(1)
+    port = ls.getsockname()[1]
+
+    def serve():
+        try:
+            conn, _ = ls.accept()
+            for i in range(nopts):
+                conn.send(bytes([255, 253, 30 + i]))
+            time.sleep(think)
+            conn.send(b"r1#")
+            conn.settimeout(8)
+            while True:
+                d = conn.recv(4096)
+                if not d:
+                    break
+                out, i = bytearray(), 0
+                while i < len(d):
+                    if d[i] == 255:
+                        i += 3
+                        continue
+                    b = d[i]
+                    i += 1
+                    if b == 10:
+                        conn.send(bytes(out))
+                        out.clear()
+                        time.sleep(think)
+                        conn.send(b"\nout\nr1#")
+                    elif b != 13:
+                        out.append(b)
+                if out:
+                    conn.send(bytes(out))
+            conn.close()
+        except OSError:
+            pass
+        finally:
+            ls.close()
+    threading.Thread(target=serve, daemon=True, name="c07-telnet-server").start()
+    return port
+
+
+SLOW_SSH = """#!/bin/sh
+printf 'r1#'
+while IFS= read -r line; do
+  sleep 0.3
+  printf 'out\nr1#'
+done
+"""
+
+
+def run_slow_case(c):
+    """REAL transports, device silent for a while and then it answers: with every configured limit either 0 (disabled) or
+    far longer than the silence, get_prompt + send_input must complete.  telnet/asynctelnet with 0, 10, 12 negotiated
+    options (the sync transport changes its socket timeout once more than 10 were answered); system = pty + a slow fake ssh"""
+    import tempfile
+    from scrapli.settings import Settings
+    kind = c["transport"]
+    kw = dict(auth_bypass=True, timeout_ops=c["t_ops"], timeout_transport=c["t_tr"], timeout_socket=c["t_sock"],
+              comms_prompt_pattern=r"^r1#\s*$")
+    res, conn, old_path = {}, None, None
+    t0 = time.monotonic()
+    try:
+        if kind in ("telnet", "asynctelnet"):
+            port = _think_server(c["nopts"], c["think"])
+            kw.update(host="127.0.0.1", port=port, transport=kind)
+        else:
+            d = tempfile.mkdtemp(prefix="c07ssh")
+            pth = Path(d) / "ssh"
+            pth.write_text(SLOW_SSH)
+            pth.chmod(0o755)
+            old_path = os.environ["PATH"]
+            os.environ["PATH"] = d + ":" + old_path
+            kw.update(host="dev", transport="system")
+        if kind == "asynctelnet":
+            from scrapli.driver import AsyncGenericDriver
+            conn = AsyncGenericDriver(**kw)
+            conn._base_channel_args.timeout_ops = c["t_ops"]
+
+            async def go():
+                await conn.transport.open()
+                p = await conn.channel.get_prompt()
+                r = await conn.channel.send_input(CMD)
+                return p, r[1]
+            p, r = asyncio.run(go())
+        else:
+            from scrapli.driver import GenericDriver
+            conn = GenericDriver(**kw)
+            conn._base_channel_args.timeout_ops = c["t_ops"]
+            conn.transport.open()
+            p = conn.channel.get_prompt()
+            r = conn.channel.send_input(CMD)[1]
+        res.update(out="ret", prompt=p, result=r.decode("utf-8", "replace"), exc=None, msg=None)
+    except BaseException as e:  # noqa
+        res.update(out="error", exc=type(e).__name__, msg=str(e)[:200])
+    finally:
+        res["elapsed"] = time.monotonic() - t0
+        if old_path is not None:
+            os.environ["PATH"] = old_path
+        try:
+            if conn is not None:
+                conn.transport.close()
+        except Exception:  # noqa
+            pass
+    return res
+
+
 def run_select_case(c):
     """which mechanism does the real decorator use for an instantly returning function (no timing)"""
     from scrapli import decorators
@@ -1028,6 +1146,8 @@ def run_case(c):
         return run_probe_case(c)
     if kind == "race":
         return run_race_case(c)
+    if kind == "slow":
+        return run_slow_case(c)
     raise ValueError(kind)
 
 
@@ -1162,6 +1282,9 @@ def stack_prog(c, nreads):
         t_tr = 0      # async telnet auth polls the read with its own wait_for(timeout_ops/20): the read's limit never fires
                       # (timeout_ops 0: it polls without a limit, the read's own limit applies)
     tail = ["ret"] if c["stall"] == "never" else ["call", t_tr, "read", ["hang"], ["ret"]]
+    if c["stall"] == "slow":      # the reads before the return are immediate, the one after it takes THINK
+        tail = ["call", t_tr, "read", ["work", THINK, ["ret"]], ["ret"]]
+        nreads = {"send_input": 1, "get_prompt": 0}[c["op"]]
     body = tail
     for _ in range(nreads):
         body = ["call", t_tr, "read", ["work", 0, ["ret"]], body]
@@ -1264,7 +1387,7 @@ def stack_cases(rng, tier):
              ("async", "asyncio", "AsyncsshTransport", "main")]
     ops = [("send_input", "before_echo"), ("send_input", "mid_echo"), ("send_input", "mid_output"), ("send_input", "before_prompt"),
            ("get_prompt", "before_echo"), ("interact", "natural"), ("auth_telnet", "auth"), ("auth_ssh", "auth"),
-           ("send_input", "never")]
+           ("send_input", "never"), ("send_input", "slow"), ("get_prompt", "slow")]
     touts = [(0, 0), (0, 2), (0, 5), (2, 0), (2, 2), (2, 5), (5, 0), (5, 2), (5, 5)]
     allc = []
     for (stack, mech, cls, thread), (op, stall), (t_ops, t_tr), nt in itertools.product(confs, ops, touts, (False, True)):
@@ -1275,6 +1398,12 @@ def stack_cases(rng, tier):
             "stall": "before_echo", "t_ops": t_ops, "t_tr": 0, "no_term": nt, "close_wakes": True, "zero": "int", "t_top": t_ops,
             "real_transport": "paramiko"}
            for (mech, thread), t_ops, nt in itertools.product((("signal", "main"), ("thread", "other")), (2, 5), (False, True))]
+    # "a timeout of 0 disables the limit", per mechanism and per level: the device is silent for a while and then answers;
+    # the operation must complete whenever every armed limit is longer than the silence
+    lib += [{"kind": "stack", "stack": stack, "mech": mech, "cls": cls, "thread": thread, "op": op, "stall": "slow", "t_ops": t_ops,
+             "t_tr": t_tr, "no_term": False, "close_wakes": True, "zero": z, "t_top": t_ops}
+            for (stack, mech, cls, thread) in confs for op, (t_ops, t_tr), z in
+            (("send_input", (0, 0), "int"), ("send_input", (0, 5), "float"), ("send_input", (5, 0), "float"), ("get_prompt", (5, 0), "int"))]
     if tier == "thorough":
         extra = list(lib)
         for c in allc:
@@ -1405,6 +1534,8 @@ def run(tier, seed):
              for nm, w, nt, pt in (("get_prompt", 0, False, None), ("send_input", 1, True, None), ("get_prompt", 0, False, 30.0),
                                    ("read", 1, False, 30.0), ("foo", 0, True, 30.0))]
     race_res = run_workers(racec, 1, per_case_timeout=20)
+    slowc = slow_cases(tier)
+    slow_res = run_workers(slowc, nproc, per_case_timeout=30)
     # pre-filter prog cases for robustness against ties (model under +/- 0.5 tick on a 10x finer scale)
     def fine(p, delta, depth=0):
         """10x finer time scale; every read longer/shorter by delta, every inner timeout shifted by 3 per nesting level"""
@@ -1554,6 +1685,7 @@ def run(tier, seed):
             ck.violation({**info, "viol": "epilogue_race"}, "alarm delivered inside the wrapper's finally: the previous ITIMER_REAL is not put back / a timer is left armed", matcher)
         if r["out"] == "timeout" and (r["msg"] != ORACLE_MESSAGES.get(c["name"], ORACLE_DEFAULT) or r["closed"] != (not c["no_term"])):
             ck.violation({**info, "viol": "closed_iff"}, "timeout in the epilogue: message / closed-iff", matcher)
+    evaluate_slow(ck, slowc, slow_res)
     replay_findings(ck, timed, results, rcases)
     ck.extra["timed_runs"] = len(timed) + len(rcases)
     ck.extra["workers"] = nproc
@@ -1566,6 +1698,52 @@ def run(tier, seed):
         ck.write_evidence(2)
         return 2
     return ck.finish()
+
+
+def slow_cases(tier):
+    """real transports x negotiated options x which limits are 0 (both spellings) — the other limits are 5 s"""
+    out = []
+    zeros = [(0, 0), (0.0, 0.0), (0, 5.0), (5.0, 0), (5.0, 0.0)] + ([(0.0, 5.0), (5.0, 5.0)] if tier == "thorough" else [])
+    for nopts in (0, 10, 12):
+        for t_ops, t_tr in zeros:
+            out.append({"kind": "slow", "transport": "telnet", "nopts": nopts, "t_ops": t_ops, "t_tr": t_tr, "t_sock": 5.0, "think": 0.3})
+    for nopts in ((12,) if tier == "quick" else (0, 10, 12)):
+        for t_ops, t_tr in zeros[:3] if tier == "quick" else zeros:
+            out.append({"kind": "slow", "transport": "asynctelnet", "nopts": nopts, "t_ops": t_ops, "t_tr": t_tr, "t_sock": 5.0, "think": 0.3})
+    for t_ops, t_tr in ([(0, 0), (5.0, 0.0)] if tier == "quick" else zeros):
+        out.append({"kind": "slow", "transport": "system", "nopts": 0, "t_ops": t_ops, "t_tr": t_tr, "t_sock": 5.0, "think": 0.3})
+    # advisory only (connection establishment is not a channel operation / transport read): timeout_socket = 0
+    for tr in ("telnet", "asynctelnet"):
+        out.append({"kind": "slow", "transport": tr, "nopts": 3, "t_ops": 5.0, "t_tr": 5.0, "t_sock": 0, "think": 0.3, "advisory": True})
+    return out
+
+
+def evaluate_slow(ck, cases, results):
+    adv = {}
+    for c, r in zip(cases, results):
+        case = {k: v for k, v in c.items() if k != "advisory"}
+        if r is None or r.get("hung") or r.get("harness_error"):
+            if c.get("advisory"):
+                adv[c["transport"]] = str(r)[:80]
+                continue
+            ck.violation({**case, "viol": "hung", "real": r}, "slow device, limits disabled or far away: the operations did not come back", matcher)
+            continue
+        if c.get("advisory"):
+            adv[c["transport"]] = r["out"] if r["out"] == "ret" else f"{r['exc']}: {r['msg'][:80]}"
+            continue
+        zero = [k for k in ("t_ops", "t_tr") if not c[k]]
+        ck.case(json.dumps(case, sort_keys=True), nontrivial=bool(zero), tags=("slow", c["transport"], f"nopts={c['nopts']}", f"out={r['out']}"),
+                sample={"case": case, "real": {k: r.get(k) for k in ("out", "exc", "msg", "elapsed", "result")}})
+        info = {**case, "out": r["out"], "exc": r.get("exc"), "msg": r.get("msg"), "elapsed": round(r["elapsed"], 2)}
+        if r["out"] != "ret" or r.get("result") != "out" or r.get("prompt") != "r1#":
+            ck.violation({**info, "viol": "zero_not_disabled" if zero else "spurious"},
+                         "the device answers after 0.3 s of silence and every limit is 0 (disabled) or 5 s: get_prompt + send_input must complete"
+                         + (f" — limit(s) {zero} are 0" if zero else ""), matcher)
+        elif r["elapsed"] < c["think"] - 0.05:
+            ck.violation({**info, "viol": "early"}, "completed faster than one silence of the device: the rig is broken", matcher)
+        else:
+            ck.traces_validated += 1
+    ck.extra["advisory_timeout_socket_0"] = adv
 
 
 def raise_harness(ck, what):
@@ -1868,6 +2046,11 @@ def replay(path):
         return 0 if _get_timeout_message(c["name"]) == c.get("want") else 1
     c.setdefault("close_wakes", True)
     c.setdefault("no_term", False)
+    if c["kind"] == "slow":
+        c = {k: c[k] for k in ("kind", "transport", "nopts", "t_ops", "t_tr", "t_sock", "think")}
+        res = run_workers([c], 1, per_case_timeout=30)[0]
+        print(json.dumps({"case": c, "real": res}, indent=1, default=str))
+        return 0 if res and res.get("out") == "ret" and res.get("result") == "out" else 1
     res = run_workers([c], 1, per_case_timeout=20)[0]
     print(json.dumps({"case": c, "real": res}, indent=1, default=str))
     viol = v.get("viol")
